@@ -116,9 +116,16 @@ def _plugin_child(world, spec, out_path, trace_path):
         os.chdir(os.path.dirname(world))
     elif spec.get("from_sibling"):
         # ... or in a directory next to the project (the test files are not below the current directory)
-        d = os.path.join(os.path.dirname(world), "elsewhere")
+        d = os.path.join(os.path.dirname(world), "elsewhere-" + os.path.basename(world))
         os.makedirs(d, exist_ok=True)
         os.chdir(d)
+        # the start directory may be a project of its own (a workspace root, a neighbouring checkout) with its own configuration
+        pp = os.path.join(d, "pyproject.toml")
+        if spec.get("start_pyproject") is not None:
+            with open(pp, "w") as fh:
+                fh.write(spec["start_pyproject"])
+        elif os.path.exists(pp):
+            os.unlink(pp)
     sys.dont_write_bytecode = not spec.get("bytecode")
     _base_env(spec.get("env"))
     if spec.get("bytecode"):
@@ -185,7 +192,7 @@ def _plugin_child(world, spec, out_path, trace_path):
     if spec.get("from_parent"):
         argv.append(os.path.basename(world))
     elif spec.get("from_sibling"):
-        argv.append(os.path.join("..", os.path.basename(world)))
+        argv.append(os.path.join("..", os.path.basename(world)))  # cwd is ../elsewhere-<world>
     argv += ["-q", "-rA", "--tb=short"]
     rc = None
     try:
